@@ -14,7 +14,7 @@ import (
 // C19 — exit status and output tell the truth.
 
 func init() {
-	register("C19", "Decides structural necessary conditions of 'exit 0 only if everything was decoded, evaluated and encoded completely': (E1) module-wide error discipline — no call's error result is dropped, no `if err != nil { return nil }`, no recovered panic lost, log-and-continue only at tabled sites; (E2) every locally created buffering writer (csv.Writer, xml.Encoder, bufio.Writer) is flushed with its error observed on every non-error exit, and the printer flushes the writer it obtains; (E3) in both RunE functions the evaluation error reaches the return, completedSuccessfully is exactly `err == nil` of it, the deferred in-place step may only set the command error when it was nil, and main exits 1 exactly under Execute() != nil; (E4) the -e test (exitStatus && !PrintedAnything()) guards the success exit in both siblings and the printedMatches flag is monotone; (E5) the two RunE siblings call the same set-up functions; (E6) the -n route (EvaluateNew) cannot reach readStream/os.Stdin and stdin is not appended under nullInput; (E7) automatic input format derives from args[0]; (S4, shared with C10) every decoder field written by Decode is reset by Init. Does NOT decide the -e truth table over values nor what each encoder does with each value.", runC19)
+	register("C19", "Decides structural necessary conditions of 'exit 0 only if everything was decoded, evaluated and encoded completely': (E1) module-wide error discipline — no call's error result is dropped, no `if err != nil { return nil }`, no recovered panic lost, log-and-continue only at tabled sites; (E2) every locally created buffering writer (csv.Writer, xml.Encoder, bufio.Writer) is flushed with its error observed on every non-error exit, and the printer flushes the writer it obtains; (E3) in both RunE functions the evaluation error reaches the return, completedSuccessfully is exactly `err == nil` of it, the deferred in-place step may only set the command error when it was nil, and main exits 1 exactly under Execute() != nil; (E4) the -e test (exitStatus && !PrintedAnything()) guards the success exit in both siblings and the printedMatches flag is monotone; (E5) the two RunE siblings call the same set-up functions; (E6) the -n route (EvaluateNew) cannot reach readStream/os.Stdin and stdin is not appended under nullInput; (E7) automatic input format derives from args[0]; (S4, shared with C10) every decoder field written by Decode is reset by Init. (E10) printedMatches is read only by its accessor and its own update; E1 also covers a swallow through a jump and a value nil-tested before its error. Does NOT decide the -e truth table over values nor what each encoder does with each value.", runC19)
 }
 
 // accepted log-and-continue / ignored-error sites: key -> reason
